@@ -298,6 +298,8 @@ def run_scenario(line):
             done_pub[i] = True
         return run
 
+    phase2 = {"infos": []}
+
     def controller():
         try:
             c.reconnect_delay_set(1, 1)
@@ -320,6 +322,24 @@ def run_scenario(line):
             c.disconnect()
             c.loop_stop()
             stopped["v"] = True
+            if a.get("cycle") == "1":
+                # a second loop_start() session on the same client: whatever the first one left behind (an unread wake-up
+                # byte, flags, a half-stopped thread) must not impair it - packets queued from this thread while the new
+                # network thread idles in select() are written without waiting for its timeout
+                sch.block_until(lambda: all(done_pub), "publishers of the first session finished")
+                phase2["t0"] = sch.timeouts
+                phase2["ev0"] = len(sch.events)     # the transition systems are replayed over the first session only
+                c.connect("broker", 1883, 60)
+                c.loop_start()
+                sch.block_until(lambda: c.is_connected(), "second session connected")
+                phase2["t1"] = sch.timeouts
+                for j, q in enumerate([0, 1, 0]):
+                    info = c.publish(f"t/c/{j}", b"zz" + bytes([48 + j]), q)
+                    phase2["infos"].append(info)
+                    sch.block_until(lambda info=info: info._published or info.rc not in (0,), f"second-session message {j} completed")
+                phase2["t2"] = sch.timeouts
+                c.disconnect()
+                c.loop_stop()
         except S.Deadlock:
             raise
         except Exception as e:  # noqa: BLE001
@@ -339,7 +359,7 @@ def run_scenario(line):
     TClient.EV = None
     LogDeque.EV = None
     WORLD.EVHOOK = None
-    events = list(sch.events)
+    events = list(sch.events)[:phase2.get("ev0")]
     # threads that wrote to the socket themselves after the network thread had exited (direct loop_write())
     post_exit_writers = set()
     _seen_exit = False
@@ -379,6 +399,10 @@ def run_scenario(line):
         "post_exit_writers": len(post_exit_writers),
         "sched_races": sch.races[:3],
         "nevents": len(events),
+        "cycle": ({"timeouts": phase2.get("t2", phase2.get("t1", 0)) - phase2.get("t1", 0),
+                   "connect_timeouts": phase2.get("t1", 0) - phase2.get("t0", 0),
+                   "published": [bool(i._published) for i in phase2["infos"]], "rcs": [int(i.rc) for i in phase2["infos"]],
+                   "reached": "t2" in phase2} if a.get("cycle") == "1" else None),
     }
     return obs
 
@@ -412,6 +436,13 @@ def check(obs, line):
     onp = obs["on_publish"]
     if len(set(onp)) != len(onp):
         hits.append(("completed-twice", f"on_publish mids {onp}"))
+    cy = obs.get("cycle")
+    if cy and cy["reached"] and obs["failed"] == "-" and not obs["errors"]:
+        if cy["timeouts"]:
+            hits.append(("stall", f"second loop_start() session on the same client: {cy['timeouts']} select() timeouts had to be taken before "
+                         f"three messages published from an application thread were written (the network thread was not woken)"))
+        if not all(cy["published"]) and all(r == 0 for r in cy["rcs"]):
+            hits.append(("not-completed", f"second loop_start() session: messages published {cy['published']}"))
     if not obs["early"] and obs["failed"] == "-" and not obs["errors"]:
         # drain scenario: everything accepted must be on the wire exactly once and completed; no stall
         allpubs = [p[2] for pk in obs["wire"].values() for p in pk if p[0] == "PUBLISH"]
@@ -460,6 +491,12 @@ class ThreadStream:
                 continue
             npub = rng.choice([1, 2, 2, 3])
             msgs = ";".join(",".join(str(rng.choice([0, 1, 2])) for _ in range(rng.randint(1, 3))) for _ in range(npub))
+            if rng.random() < 0.2:
+                # two loop_start() sessions on one client; the first one is ended while publishers are still queueing
+                case.append(f"thr seed={rng.randrange(10**6)} policy={rng.choice(['random', 'random', 'hold'])} sw={rng.choice(['0.1', '0.3', '0.6'])} "
+                            f"msgs={rng.choice(['0,0,0', '0,0;0,0', '0,1,0;0', '0;0;0,0'])} N=20 early={int(rng.random() < 0.8)} proto={rng.choice([4, 5])} "
+                            f"conn=sync drop=0 part=0 cycle=1")
+                continue
             case.append(f"thr seed={rng.randrange(10**6)} policy={rng.choice(['random', 'random', 'pct', 'hold', 'hold'])} sw={rng.choice(['0.1', '0.3', '0.6'])} "
                         f"msgs={msgs} N={rng.choice([1, 2, 20])} early={int(rng.random() < 0.3)} proto={rng.choice([4, 5])} "
                         f"conn={rng.choice(['sync', 'async'])} drop={rng.choice([0, 0, 1, 2, 3])} part={rng.choice([0, 0, 3, 9])}")
